@@ -14,10 +14,13 @@
 // and the batch goes on; if the process dies (fatal error: stack overflow, a panic in a
 // goroutine the repo started, ...) the parent attributes the death to the open journal entry
 // by the crash report in the child's output and resumes the batch behind that case. A case
-// that exceeds the soft timer is only a *suspect*: it is re-run alone in a fresh child with
-// a 120 s budget and a SIGQUIT goroutine dump before it is called a hang. Allocation
-// failures under the protective address-space limit are inconclusive (memory exhaustion is
-// not in the statement); makeslice/len-out-of-range panics are crashes.
+// that burns more than 15 s of CPU time (or is parked without using CPU) is only a
+// *suspect*: it is re-run alone in a fresh child and called a hang only if it burns 60 s of
+// CPU without finishing or stays parked for 120 s with no CPU use; a goroutine dump
+// (runtime.Stack, which also shows spinning goroutines) is attached. CPU time and idleness
+// rather than wall-clock decide because the machine is shared. Allocation failures under
+// the protective address-space limit are inconclusive (memory exhaustion is not in the
+// statement); makeslice/len-out-of-range panics are crashes.
 package main
 
 import (
@@ -47,7 +50,7 @@ const rule = "inputs are a pure function of (seed, tier, index): (a) raw byte st
 	"(e) the tar reader accepted a header or the builder accepted the input. Distinct by generator + input digest."
 
 func main() {
-	vf.Main("C04", "exploration", rule, 600, 6000, body)
+	vf.Main("C04", "exploration", rule, 600, 4000, body)
 }
 
 var procStart = time.Now()
@@ -74,7 +77,7 @@ func body(r *vf.Run) {
 	case "gen":
 		// development aid: generate every input of the tier and report generator panics / sizes
 		pool := newPool(r)
-		n := envInt("C04_N", r.N(3000, 30000))
+		n := envInt("C04_N", r.N(3000, 20000))
 		var total int64
 		for i := 0; i < n; i++ {
 			p, v, st := vf.Recover(func() {
@@ -111,10 +114,10 @@ type crashed struct {
 }
 
 func top(r *vf.Run) {
-	n := r.N(3000, 30000)
+	n := r.N(3000, 20000)
 	n = envInt("C04_N", n)
 	from0 := envInt("C04_FROM", 0)
-	par := envInt("C04_PAR", r.N(8, 10))
+	par := envInt("C04_PAR", r.N(8, 12))
 	pool := newPool(r)
 
 	var spans []span
@@ -135,6 +138,9 @@ func top(r *vf.Run) {
 	// race spans are the long poles: start them first
 	sort.SliceStable(spans, func(i, j int) bool { return spans[i].race && !spans[j].race })
 
+	// Bound the whole run: after the deadline no new span / re-run is started; what was not
+	// run is reported (inconclusive), what was found is still reported.
+	deadline := time.Now().Add(time.Duration(envInt("C04_DEADLINE_S", r.N(2100, 5700))) * time.Second)
 	var mu sync.Mutex
 	var suspects []span // single cases
 	var crashes []crashed
@@ -149,6 +155,10 @@ func top(r *vf.Run) {
 		go func() {
 			defer wg.Done()
 			for s := range work {
+				if time.Now().After(deadline) {
+					r.Inconclusive(fmt.Sprintf("time budget exhausted: cases [%d,%d) race=%v not run", s.from, s.to, s.race))
+					continue
+				}
 				t0 := time.Now()
 				sus, cr := runSpan(r, s)
 				r.Logf("span [%d,%d) race=%v done in %v: %d suspects, %d process deaths", s.from, s.to, s.race, time.Since(t0).Round(time.Second), len(sus), len(cr))
@@ -174,7 +184,7 @@ func top(r *vf.Run) {
 		rp["crash"] = c.sig.Msg
 		rp["stack_head"] = c.sig.StackHead
 		rp["attribution"] = "open journal entry of the batch child that died"
-		if !seen[c.sig.Key] {
+		if !seen[c.sig.Key] && time.Now().Before(deadline) {
 			seen[c.sig.Key] = true
 			key2, how := soloConfirm(r, c.idx, c.race)
 			rp["rerun_alone"] = how
@@ -198,6 +208,10 @@ func top(r *vf.Run) {
 	queued := 0
 	for _, s := range suspects {
 		r.Distinct("suspect_stages", s.stage)
+		if time.Now().After(deadline) {
+			r.Inconclusive("suspect not re-run alone (time budget exhausted): stage " + s.stage)
+			continue
+		}
 		if perStage[s.stage] >= 2 || queued >= maxRerun {
 			r.Inconclusive("suspect not re-run alone (re-run budget; same stage as an already re-run suspect): stage " + s.stage)
 			continue
@@ -329,7 +343,11 @@ func runSpan(r *vf.Run, s span) (suspects []span, crashes []crashed) {
 				crashes = append(crashes, crashed{st.openIdx, s.race, sig, ex.Output})
 			default:
 				r.Inconclusive("batch child died without a recognisable report: " + exitDesc(ex))
-				r.Logf("UNRECOGNISED DEATH case %d: %s\n%s", st.openIdx, exitDesc(ex), tail(out, 2000))
+				hd := out
+				if len(hd) > 1500 {
+					hd = hd[:1500]
+				}
+				r.Logf("UNRECOGNISED DEATH case %d: %s\n--- head ---\n%s\n--- tail ---\n%s", st.openIdx, exitDesc(ex), hd, tail(out, 1500))
 			}
 			from = st.openIdx + 1
 		}
